@@ -1,9 +1,6 @@
 import Corro.Props.C14
 #print axioms Corro.Updates.code_params_admissible
-#print axioms Corro.Updates.lookup_append
-#print axioms Corro.Updates.filter_fold_spec
 #print axioms Corro.Updates.filter_keeps_first_cl_per_key
-#print axioms Corro.Updates.filter_fold_nodup
 #print axioms Corro.Updates.filter_keys_nodup
 #print axioms Corro.Updates.every_key_notified
 #print axioms Corro.Updates.suppressed_only_by_newer
@@ -11,26 +8,10 @@ import Corro.Props.C14
 #print axioms Corro.Updates.no_stale_within_horizon
 #print axioms Corro.Updates.horizon_not_below_cache
 #print axioms Corro.Updates.no_stale_partial
-#print axioms Corro.Updates.clsOf_getLast
 #print axioms Corro.Updates.parity_is_fate
 #print axioms Corro.Updates.deleted_iff_row_absent
-#print axioms Corro.Updates.length_pushCand_le
-#print axioms Corro.Updates.length_fold_le
-#print axioms Corro.Updates.pushCand_keeps_cached
-#print axioms Corro.Updates.fold_keeps_cached
-#print axioms Corro.Updates.fold_caches_offered
-#print axioms Corro.Updates.keptStep_of_room
-#print axioms Corro.Updates.step_cache_length_le
-#print axioms Corro.Updates.folded_length_le
-#print axioms Corro.Updates.kept_of_room
 #print axioms Corro.Updates.kept_of_few_candidates
 #print axioms Corro.Updates.stale_after_eviction_counterexample
 #print axioms Corro.Updates.newer_lost_after_eviction_counterexample
-#print axioms Corro.Updates.upsert_of_not_mem
-#print axioms Corro.Updates.fold_fresh
-#print axioms Corro.Updates.fill_keys
-#print axioms Corro.Updates.fill_keys_nodup
-#print axioms Corro.Updates.zero_not_in_fill
-#print axioms Corro.Updates.lookup_zero_drop_fill
-#print axioms Corro.Updates.clsOf_zero_fill
 #print axioms Corro.Updates.stale_after_eviction_general
+#print axioms Corro.Updates.stale_after_eviction_code_params
